@@ -2,6 +2,7 @@
 mod crumbs;
 mod env;
 mod explore;
+mod faults;
 mod inv;
 mod keys;
 mod mapsut;
